@@ -1,6 +1,7 @@
 /- Driver operations for the abstract machine (loop / app cases). -/
 import Driver.Json
 import Simpleline.Model.Machine
+import Simpleline.Spec.InputOrderSpec
 
 open Lean Simpleline
 
@@ -140,13 +141,10 @@ def historyFlags (tr : List Tr) : List String :=
       | _ => st) (false, false)).2
   let k2 := tr.any fun t => match t with | .closeReq _ n => n > 0 | _ => false
   let fq := tr.any fun t => match t with | .forceQuit => true | _ => false
-  -- K5: an InputReadySignal was routed into a level that is not the innermost one (it is held there while an inner level runs)
-  let held := (tr.foldl (fun (st : List Nat × Bool) t =>
-      match t with
-      | .openLevel q _ => (st.1 ++ [q], st.2)
-      | .closeLevel _ => (st.1.dropLast, st.2)
-      | .enq q s => if s.cls == .inputReady && st.1.getLast? != some q then (st.1, true) else st
-      | _ => st) ([0], false)).2
+  -- K5: the hypotheses of `C06_order_within_level` (Props/C06b.lean), decided on the history itself (newest first): a successful InputReadySignal
+  -- was pending in a covered level (`NoReadyCovered` fails), or one was taken while an earlier one was on its way to its handler (`NoReadyReentry` fails)
+  let held := !decide (NoReadyCovered tr.reverse)
+  let reentry := !decide (NoReadyReentry tr.reverse)
   -- K6: a modal entry was popped by close_screen and an ordinary exception (RenderUnexpectedError, a failing closed()) prevented its close_loop
   let k6 := (tr.foldl (fun (st : List Entry × Bool × Bool) t =>
       match t with
@@ -156,14 +154,15 @@ def historyFlags (tr : List Tr) : List String :=
       | .closeLevel _ => (st.1, false, st.2.2)
       | .enq _ s => if s.cls == .exception && st.2.1 then (st.1, st.2.1, true) else st
       | _ => st) ([], false, false)).2.2
-  (if k6 then ["K6"] else []) ++ (if k1a || k1b then ["K1"] else []) ++ (if k2 then ["K2"] else []) ++ (if fq then ["forceQuit"] else []) ++ (if held then ["K5"] else [])
+  (if k6 then ["K6"] else []) ++ (if k1a || k1b then ["K1"] else []) ++ (if k2 then ["K2"] else []) ++ (if fq then ["forceQuit"] else []) ++ (if held then ["K5"] else []) ++ (if reentry then ["K5r"] else [])
 
 /-- C20: the `Calm` clauses evaluated on the MainLoop machine's trace (oldest first); the result lists the violated clauses -/
 structure CalmSt where
   pending : List (Nat × Nat × Int) := []          -- (queue, signal id, priority)
   dispatching : List (Nat × Int) := []            -- innermost first: (queue, priority) of signals being dispatched
   waits : List (Cls × Nat) := []                  -- open waiting calls
-  procs : Nat := 0                                -- open non-waiting calls
+  procs : List (Nat × Nat) := []                  -- open non-waiting calls, innermost first: (dispatch depth at the call, signals it has taken itself)
+  closing : Nat := 0                              -- close_loop popped a level whose activation has not returned yet (`_run_loop` is False)
   bad : List String := []
 
 def calmStep (st : CalmSt) (t : Tr) : CalmSt :=
@@ -179,14 +178,27 @@ def calmStep (st : CalmSt) (t : Tr) : CalmSt :=
   | .take q s =>
     let pend := st.pending.eraseP fun p => p.1 = q ∧ p.2.1 = s.id
     let others := pend.any (·.1 = q)
-    let st := flag st (others && (st.procs > 0 || st.waits.any (·.1 = s.cls))) "C4-processing-call-with-pending"
-    { st with pending := pend, dispatching := (q, s.prio) :: st.dispatching }
+    let st := flag st (others && (!st.procs.isEmpty || st.waits.any (·.1 = s.cls))) "C4-processing-call-with-pending"
+    -- a non-waiting processing call that itself takes a second signal (one that arrived while it was running): MainLoop goes on while the most urgent
+    -- priority is unchanged, a GLib iteration has ended
+    let (second, procs) := match st.procs with
+      | (d, n) :: rest => if d = st.dispatching.length then (decide (n ≥ 1), (d, n + 1) :: rest) else (false, st.procs)
+      | [] => (false, [])
+    let st := flag st second "C4-processing-call-with-pending"
+    { st with pending := pend, dispatching := (q, s.prio) :: st.dispatching, procs := procs }
   | .dispatched _ _ => { st with dispatching := st.dispatching.tail }
   | .closeReq _ n => flag st (n > 0) "C2-close-with-pending"
-  | .waitBegin c t => { st with waits := (c, t) :: st.waits }
+  | .waitBegin c t =>
+    let st := flag st (st.closing > 0 && !st.pending.isEmpty) "C4-processing-call-with-pending"
+    { st with waits := (c, t) :: st.waits }
   | .waitEnd c t _ => { st with waits := st.waits.filter fun w => !(w.1 == c && w.2 == t) }
-  | .procBegin => { st with procs := st.procs + 1 }
-  | .procEnd => { st with procs := st.procs - 1 }
+  | .closeLevel _ => { st with closing := st.closing + 1 }
+  | .loopReturn _ => { st with closing := st.closing - 1 }
+  | .procBegin =>
+    -- a processing call between close_loop and the return of the closed loop's activation: MainLoop does nothing (`_run_loop` is False), GLib iterates
+    let st := flag st (st.closing > 0 && !st.pending.isEmpty) "C4-processing-call-with-pending"
+    { st with procs := (st.dispatching.length, 0) :: st.procs }
+  | .procEnd => { st with procs := st.procs.tail }
   | _ => st
 
 def calmFlags (tr : List Tr) : List String := (tr.foldl calmStep {}).bad
@@ -206,13 +218,25 @@ def headName (c : Cfg) : String :=
       "act." ++ ((((af.splitOn " ").headD "").splitOn "\n").headD "" |>.replace "Simpleline.Act." "" |>.replace "(" "")
     | _ => base
 
+def closesOpen (c : Cfg) : Nat := (c.code.filter fun i => match i with | .closeScreen2 .. => true | _ => false).length
+
+/-- K6 in general: a `close_screen` activation that has already popped its entry (it is between the pop and the rest: `closeScreen2` is on the code stack) is
+abandoned by an ordinary exception - `RenderUnexpectedError` (the close came from another screen) or a failing `closed()` - which surfaces as an exception
+signal: the entry is gone but the loop of a modal entry is not closed, the screen beneath is not redrawn and an empty stack does not end the application -/
+def abortedClose (c c' : Cfg) : Bool :=
+  let normal := match c.code with | .closeScreen2 e frm :: _ => !(frm ≠ none ∧ frm ≠ some (.scr e.screen)) | _ => false
+  let newTr := c'.tr.take (c'.tr.length - c.tr.length)
+  !normal && closesOpen c' < closesOpen c && newTr.any fun t => match t with | .enq _ s => s.cls == .exception | _ => false
+
 def runCollect (P : Prog) : Nat → Cfg → List String → Cfg × Outcome × List String
   | 0, c, seen => (c, .fuel, seen)
   | n + 1, c, seen =>
     let nm := headName c
     let seen := if seen.contains nm then seen else nm :: seen
     match step P c with
-    | .ok c' => runCollect P n c' seen
+    | .ok c' =>
+      let seen := if abortedClose c c' && !seen.contains "!K6a" then "!K6a" :: seen else seen
+      runCollect P n c' seen
     | .error (o, c') => (c', o, seen)
 
 def opMachine (j : Json) : Except String Json := do
@@ -255,8 +279,8 @@ def opMachine (j : Json) : Except String Json := do
     ("out", Json.str (String.ofList c.A.out.flatten)),
     ("stack", Json.arr (c.A.stack.reverse.map (entryJson P)).toArray),
     ("depth", Json.num c.L.levels.length),
-    ("flags", Json.arr ((historyFlags c.tr.reverse).map Json.str).toArray),
-    ("instrs", Json.arr (seen.map Json.str).toArray),
+    ("flags", Json.arr ((historyFlags c.tr.reverse ++ (if seen.contains "!K6a" then ["K6a"] else [])).map Json.str).toArray),
+    ("instrs", Json.arr ((seen.filter (· != "!K6a")).map Json.str).toArray),
     ("noncalm", Json.arr ((calmFlags c.tr.reverse).map Json.str).toArray)])
 
 end Driver
